@@ -16,6 +16,7 @@ def dispatch (line : String) : String :=
   | "cache" :: rest => cacheEngine rest
   | "kvfs" :: rest => kvfsEngine rest
   | "kvfs2" :: rest => kvfs2Engine rest
+  | "mirrorstore" :: rest => mirrorStoreEngine rest
   | "asm15" :: rest => asm15Engine rest
   | "osfs" :: rest => osfsEngine rest
   | "git" :: rest => gitEngine rest
